@@ -159,8 +159,17 @@ struct Model {
     max_peers: usize,
     tokens: Vec<TokenRec>,
     req_times: Vec<u64>,
+    /// Lazy rotation, exactly: the secrets rotate when a request is handled more than five minutes after
+    /// the previous rotation (or the start). Possible worlds (time of the last rotation, rotations so far) -
+    /// more than one only when a request falls within the slack around a five-minute boundary.
+    rot_worlds: Vec<(u64, u32)>,
+    /// rotation count(s) when each request was handled, per world index is not kept: per request the set of
+    /// possible counts
+    rot_counts: Vec<(u64, Vec<u32>)>,
     probes: BTreeMap<&'static str, u64>,
 }
+
+const ROT_SLACK: u64 = 20 * MS;
 
 type Fail = (String, String, String);
 
@@ -196,9 +205,45 @@ impl Model {
         }
         gmax = gmax.max(now - prev);
         if age > 2 * MIN5 + 2 * gmax + SEC {
-            TokVerdict::MustReject
-        } else {
-            TokVerdict::Either
+            return TokVerdict::MustReject;
+        }
+        // exactly: the token dies with the second rotation after its issue. Rotations happen at handled
+        // requests only, so count them: in every possible world at least two between issue and now?
+        let count_at = |t: u64| self.rot_counts.iter().rev().find(|c| c.0 == t).map(|c| c.1.clone());
+        if let (Some(issue), Some(cur)) = (count_at(at), self.rot_counts.last().filter(|c| c.0 == now).map(|c| c.1.clone())) {
+            let max_issue = issue.iter().copied().max().unwrap_or(0);
+            let min_now = cur.iter().copied().min().unwrap_or(0);
+            if min_now >= max_issue + 2 {
+                return TokVerdict::MustReject;
+            }
+        }
+        TokVerdict::Either
+    }
+
+    /// Advance the lazy-rotation worlds for a request handled at `mono` (server clock).
+    fn note_rotation(&mut self, mono: u64) {
+        let mut next: Vec<(u64, u32)> = vec![];
+        for (last, n) in &self.rot_worlds {
+            let el = mono.saturating_sub(*last);
+            if el > MIN5 + ROT_SLACK {
+                next.push((mono, n + 1));
+            } else if el + ROT_SLACK < MIN5 {
+                next.push((*last, *n));
+            } else {
+                next.push((mono, n + 1));
+                next.push((*last, *n));
+            }
+        }
+        next.sort();
+        next.dedup();
+        if next.len() > 64 {
+            // too ambiguous to follow: forget the exact model for this run
+            next.clear();
+        }
+        self.rot_worlds = next;
+        let counts: Vec<u32> = self.rot_worlds.iter().map(|w| w.1).collect();
+        if !counts.is_empty() {
+            self.rot_counts.push((mono, counts));
         }
     }
 
@@ -233,6 +278,7 @@ impl Model {
             return Ok(());
         }
         self.req_times.push(mono);
+        self.note_rotation(mono);
         let Some(reply) = reply else {
             return Err(fail("reply", "no-reply", format!("well-formed {q} from {from} got no reply")));
         };
@@ -788,6 +834,7 @@ pub fn run(ctx: &RunCtx, flavor: Flavor) -> Report {
         *server_cell.borrow_mut() = Some(h);
         h
     };
+    let t_server_start = 0u64;
     if let Some(d) = sim.died(server) {
         report.harness_error = Some(format!("server failed to start: {d}"));
         return finish(&sim, report);
@@ -1190,7 +1237,12 @@ pub fn run(ctx: &RunCtx, flavor: Flavor) -> Report {
                     }
                     2 => {
                         let ih = info_hashes[r.usize(0, 3)];
-                        let port = r.range(1, 65535) as u16;
+                        // (boundary ports included: an explicit 0 is recorded as given)
+                        let port = match r.below(10) {
+                            0 => 0u16,
+                            1 => *r.pick(&[1u16, 65535, 1023, 1024]),
+                            _ => r.range(1, 65535) as u16,
+                        };
                         // BEP5: any non-zero value means "use the source port"
                         let implied = match r.below(5) {
                             0 => Some(1),
@@ -1246,6 +1298,8 @@ pub fn run(ctx: &RunCtx, flavor: Flavor) -> Report {
         max_peers: settings.max_peers_per_info_hash,
         tokens: vec![],
         req_times: vec![],
+        rot_worlds: vec![(sim.host_clock_at(server, t_server_start), 0)],
+        rot_counts: vec![],
         probes: BTreeMap::new(),
     };
     struct Consumed {
